@@ -17,7 +17,7 @@ var h02Bounds = map[string]string{
 }
 
 var h04Bounds = map[string]string{
-	"H04":     "word lists: eleven concrete lists of 1, 2, 3, 5, 7 words (ASCII, non-ASCII, with a word that does not change under title-casing, with a pre-capitalised word, with leading punctuation, with multi-part words, with the empty word); Length 1..L (quick 2, thorough 4) and, on the first two lists with every scheme except 'random', Length 64..66 (thorough 63..70); the five capitalisation schemes and one unknown scheme string; separators: constant \"\", \"-\", \"→\", SFNone, SFDigits1, SFDigitsNoAmbiguous2 and a constructed function over the alphabet é✓!; every draw symbolic",
+	"H04":     "word lists: eleven concrete lists of 1, 2, 3, 5, 7 words (ASCII, non-ASCII, with a word that does not change under title-casing, with a pre-capitalised word, with leading punctuation, with multi-part words, with the empty word); Length 1..L (quick 2, thorough 3) and, on the first two lists with every scheme except 'random', Length 64..66 (thorough 63..70); the five capitalisation schemes and one unknown scheme string; separators: constant \"\", \"-\", \"→\", SFNone, SFDigits1, SFDigitsNoAmbiguous2 and a constructed function over the alphabet é✓!; every draw symbolic",
 	"outside": "lists of more than 7 words enter only through the bound n = Size(), which C01 covers for every n; lengths above L (in particular above 64); the 18 328-word shipped list is exercised concretely in C16",
 }
 
@@ -26,27 +26,33 @@ func propSpecs() map[string]*PropSpec {
 		{
 			ID: "C01", Sub: "spg", Level: "model_checking",
 			Harnesses: []HSpec{
-				{Name: "H01", Int: true, Quick: P{"unwind:randomUint32n": 66, "unwind_expected": 1}, Thorough: P{"unwind:randomUint32n": 258, "unwind_expected": 1}, Reach: []string{"returned", "after-rejection"}},
+				{Name: "H01", Int: true, Quick: P{"unwind:randomUint32n": 66, "unwind_expected": 1, "maxdecisions": 90}, Thorough: P{"unwind:randomUint32n": 258, "unwind_expected": 1, "maxdecisions": 290}, Reach: []string{"returned", "after-rejection"}},
 				{Name: "H01L", Int: true, Reach: []string{"lemmas"}},
 				{Name: "H01P", Reach: []string{"returned"}},
 				{Name: "H01Z", Reach: []string{"panicked"}},
 				{Name: "H01G", Reach: []string{"guard"}},
+				{Name: "H01LB", Int: true, Reach: []string{"lemmas"}},
+				{Name: "H01LC", Int: true, Reach: []string{"lemmas"}},
+				{Name: "H04", Label: "every-pick-uses-the-kernel", Quick: P{"L": 2, "lists": 4, "seps": 6}, Thorough: P{"L": 3, "lists": 6, "seps": 6}, Reach: []string{"returned", "structure", "capitalised"}},
+				{Name: "H02", Label: "every-pick-uses-the-kernel", Quick: P{"allowmask": 4, "requiremask": 4, "excludemask": 0, "strings": 2, "reqsets": 3, "L": 2, "T": 2}, Thorough: P{"allowmask": 12, "requiremask": 4, "excludemask": 16, "strings": 2, "reqsets": 4, "L": 2, "T": 2}, Reach: []string{"returned", "accepted"}},
 			},
 			Bounds: map[string]string{
 				"H01":     "n: every 32-bit value >= 1 that is not a power of two (symbolic); raw words: every value (4 symbolic source bytes each); rejections: every stream with up to K consecutive rejected words, K = 64 quick / 256 thorough (one path per rejection count, the loop is unrolled; longer rejection runs are outside the executed bound)",
 				"H01L":    "n, T, q, rho, u symbolic over their full ranges (integer encoding, QF_NIA)",
 				"H01P":    "the 32 power-of-two bounds, concrete; raw word symbolic",
+				"family":  "the oracle is one of the three classical exactly-uniform samplers (reject the top 2^32 mod n words and take the residue - the pinned code; reject the bottom 2^32 mod n words and take the residue; multiply-shift with rejection of low products below 2^32 mod n), selected by two scripted probe draws with n = 3; each has its counting lemma (H01L, H01LB, H01LC: n and all auxiliary quantities symbolic over their full ranges)",
+				"callers": "H04 / H02 (C04's and C02's harnesses at small bounds): every pick of a word, position, coin or character is exactly one call of the bounded draw with the number of alternatives as its bound, and no source byte is consumed outside it",
 				"outside": "more than K consecutive rejections (probability < 2^-K); quality of the OS source (source bytes are assumed independent and uniform)",
 			},
-			Assume: append([]string{"the threshold oracle is the maximal one (largest multiple of n not exceeding 2^32-1): a sampler that used a smaller, still unbiased threshold would be reported and has to be judged by hand"}, commonAssume...),
+			Assume: append([]string{"the oracle is the maximal sampler of its family (exactly 2^32 mod n raw words rejected): a sampler that rejects more words than necessary, or an exactly uniform sampler outside the three families of H01, would be reported and has to be judged by hand"}, commonAssume...),
 		},
 		{
 			ID: "C02", Sub: "spg", Level: "model_checking",
 			Harnesses: []HSpec{
 				{Name: "H02", Quick: P{"allowmask": 12, "requiremask": 4, "excludemask": 16, "strings": 3, "reqsets": 11, "L": 2, "T": 2},
-					Thorough: P{"allowmask": 14, "requiremask": 12, "excludemask": 20, "strings": 5, "reqsets": 11, "L": 3, "T": 3},
+					Thorough: P{"allowmask": 14, "requiremask": 12, "excludemask": 20, "strings": 3, "reqsets": 11, "L": 3, "T": 2},
 					Reach:    []string{"returned", "accepted", "accepted-after-retry", "exhausted", "empty-alphabet"}},
-				{Name: "H01", Label: "kernel-contract", Int: true, Quick: P{"unwind:randomUint32n": 5, "unwind_expected": 1}, Thorough: P{"unwind:randomUint32n": 10, "unwind_expected": 1}, Reach: []string{"returned", "after-rejection"}},
+				{Name: "H01", Label: "kernel-contract", Int: true, Quick: P{"unwind:randomUint32n": 5, "unwind_expected": 1, "maxdecisions": 40}, Thorough: P{"unwind:randomUint32n": 10, "unwind_expected": 1, "maxdecisions": 45}, Reach: []string{"returned", "after-rejection"}},
 				{Name: "H01P", Label: "kernel-contract", Reach: []string{"returned"}},
 			},
 			Bounds: h02Bounds,
@@ -70,11 +76,11 @@ func propSpecs() map[string]*PropSpec {
 		{
 			ID: "C04", Sub: "spg", Level: "model_checking",
 			Harnesses: []HSpec{
-				{Name: "H04", Quick: P{"L": 2}, Thorough: P{"L": 4}, Reach: []string{"returned", "structure", "capitalised"}},
+				{Name: "H04", Quick: P{"L": 2}, Thorough: P{"L": 3}, Reach: []string{"returned", "structure", "capitalised"}},
 				{Name: "H04", Label: "long", Quick: P{"Lmin": 64, "L": 66, "lists": 2, "schemes": 5, "seps": 2}, Thorough: P{"Lmin": 63, "L": 70, "lists": 2, "schemes": 5, "seps": 2}, Reach: []string{"returned", "structure", "capitalised"}},
 				{Name: "H04", Label: "three-words-all-separators", Quick: P{"Lmin": 3, "L": 4, "lists": 3, "schemes": 4}, Thorough: P{"Lmin": 3, "L": 5, "lists": 4, "schemes": 6}, Reach: []string{"returned", "structure"}},
 				{Name: "H04", Label: "after-capitalising-call", Quick: P{"L": 2, "lists": 4, "seps": 3, "prime": 1}, Thorough: P{"L": 3, "lists": 6, "seps": 5, "prime": 1}, Reach: []string{"returned", "structure", "primed"}},
-				{Name: "H01", Label: "kernel-contract", Int: true, Quick: P{"unwind:randomUint32n": 5, "unwind_expected": 1}, Thorough: P{"unwind:randomUint32n": 10, "unwind_expected": 1}, Reach: []string{"returned", "after-rejection"}},
+				{Name: "H01", Label: "kernel-contract", Int: true, Quick: P{"unwind:randomUint32n": 5, "unwind_expected": 1, "maxdecisions": 40}, Thorough: P{"unwind:randomUint32n": 10, "unwind_expected": 1, "maxdecisions": 45}, Reach: []string{"returned", "after-rejection"}},
 				{Name: "H01P", Label: "kernel-contract", Reach: []string{"returned"}},
 			},
 			Bounds: h04Bounds,
@@ -83,11 +89,11 @@ func propSpecs() map[string]*PropSpec {
 		{
 			ID: "C05", Sub: "spg", Level: "model_checking",
 			Harnesses: []HSpec{
-				{Name: "H04", Quick: P{"L": 2}, Thorough: P{"L": 4}, Reach: []string{"returned", "structure", "capitalised"}},
+				{Name: "H04", Quick: P{"L": 2}, Thorough: P{"L": 3}, Reach: []string{"returned", "structure", "capitalised"}},
 				{Name: "H04", Label: "long", Quick: P{"Lmin": 64, "L": 66, "lists": 2, "schemes": 5, "seps": 2}, Thorough: P{"Lmin": 63, "L": 70, "lists": 2, "schemes": 5, "seps": 2}, Reach: []string{"returned", "structure", "capitalised"}},
 				{Name: "H04", Label: "three-words-all-separators", Quick: P{"Lmin": 3, "L": 4, "lists": 3, "schemes": 4}, Thorough: P{"Lmin": 3, "L": 5, "lists": 4, "schemes": 6}, Reach: []string{"returned", "structure"}},
 				{Name: "H04", Label: "after-capitalising-call", Quick: P{"L": 2, "lists": 4, "seps": 3, "prime": 1}, Thorough: P{"L": 3, "lists": 6, "seps": 5, "prime": 1}, Reach: []string{"returned", "structure", "primed"}},
-				{Name: "H01", Label: "kernel-contract", Int: true, Quick: P{"unwind:randomUint32n": 5, "unwind_expected": 1}, Thorough: P{"unwind:randomUint32n": 10, "unwind_expected": 1}, Reach: []string{"returned", "after-rejection"}},
+				{Name: "H01", Label: "kernel-contract", Int: true, Quick: P{"unwind:randomUint32n": 5, "unwind_expected": 1, "maxdecisions": 40}, Thorough: P{"unwind:randomUint32n": 10, "unwind_expected": 1, "maxdecisions": 45}, Reach: []string{"returned", "after-rejection"}},
 				{Name: "H01P", Label: "kernel-contract", Reach: []string{"returned"}},
 			},
 			Bounds: h04Bounds,
@@ -116,12 +122,12 @@ func propSpecs() map[string]*PropSpec {
 				{Name: "H07", Quick: P{"a": 2, "k": 2, "m": 2, "L": 3}, Thorough: P{"a": 2, "k": 3, "m": 2, "L": 3}, Reach: []string{"computed", "overlapping-required-sets", "impossible"}},
 				{Name: "H07", Label: "long", Quick: P{"a": 2, "k": 2, "m": 2, "big": 1}, Thorough: P{"a": 2, "k": 3, "m": 2, "big": 1}, Reach: []string{"computed", "overlapping-required-sets"}},
 				{Name: "H07", Label: "word-size-boundaries", Quick: P{"a": 2, "k": 2, "m": 2, "big": 2}, Thorough: P{"a": 2, "k": 3, "m": 2, "big": 2}, Reach: []string{"computed", "overlapping-required-sets"}},
-				{Name: "H07", Label: "class-flags", Quick: P{"a": 0, "k": 1, "m": 2, "L": 2, "flags": 4}, Thorough: P{"a": 1, "k": 2, "m": 1, "L": 3, "flags": 4}, Reach: []string{"computed", "overlapping-required-sets", "premise-excluded"}},
+				{Name: "H07", Label: "class-flags", Quick: P{"a": 0, "k": 1, "m": 2, "L": 2, "flags": 6}, Thorough: P{"a": 1, "k": 2, "m": 1, "L": 3, "flags": 6}, Reach: []string{"computed", "overlapping-required-sets", "premise-excluded"}},
 				{Name: "H07", Label: "after-sibling-call", Quick: P{"a": 1, "k": 2, "m": 2, "L": 2, "primes": 5}, Thorough: P{"a": 2, "k": 2, "m": 2, "L": 3, "primes": 5}, Reach: []string{"computed", "primed"}},
 				{Name: "H07", Label: "four-sets", ThoroughOnly: true, Thorough: P{"a": 1, "k": 4, "m": 1, "L": 3}, Reach: []string{"computed", "overlapping-required-sets"}},
 			},
 			Bounds: map[string]string{
-				"H07":     "allowed string of 0..a characters and 0..k required sets of 1..m characters each, every character a symbolic printable-ASCII byte, so every overlap pattern (set partition) of the characters arises as a solver-feasible path; Length 1..L, 1000 and 5000 in the `long` run, 16, 32, 63, 64 and 65 in the `word-size-boundaries` run; class flags none / Require Digits / Allow Digits Exclude Ambiguous / Require Symbols Allow Digits in the `class-flags` run; quick a=2,k=2,m=2,L=3; thorough a=2,k=3,m=2 and k=4 singletons",
+				"H07":     "allowed string of 0..a characters and 0..k required sets of 1..m characters each, every character a symbolic printable-ASCII byte, so every overlap pattern (set partition) of the characters arises as a solver-feasible path; Length 1..L, 1000 and 5000 in the `long` run, 16, 32, 63, 64 and 65 in the `word-size-boundaries` run; class flags none / Require Digits / Allow Digits Exclude Ambiguous / Require Symbols Allow Digits / Require Digits|Ambiguous / Require Ambiguous Allow Digits (overlapping classes) in the `class-flags` run; quick a=2,k=2,m=2,L=3; thorough a=2,k=3,m=2 and k=4 singletons",
 				"outside": "more than 4 required sets (the property's upper end of 8 is outside the executed bound), more than 8 distinct custom characters, non-ASCII custom characters (set operations only compare characters for equality); log2 is the native math.Log2 (compared numerically to 8 float32 ulps against an independent route, not proved)",
 			},
 			Assume: commonAssume,
@@ -192,12 +198,12 @@ func propSpecs() map[string]*PropSpec {
 		{
 			ID: "C14", Sub: "spg", Level: "model_checking",
 			Harnesses: []HSpec{
-				{Name: "H14", Quick: P{"unwind:randomUint32n": 2, "unwind_expected": 1}, Thorough: P{"unwind:randomUint32n": 3, "unwind_expected": 1}, Reach: []string{"called"}},
+				{Name: "H14", Quick: P{"unwind:randomUint32n": 2, "unwind_expected": 1, "maxdecisions": 400}, Thorough: P{"unwind:randomUint32n": 3, "unwind_expected": 1, "maxdecisions": 600}, Reach: []string{"called"}},
 			},
 			Bounds: map[string]string{
 				"H14":     "shared values: a CharRecipe with custom required sets (one empty), a WordList, a WLRecipe with scheme 'one' and a constructed separator function whose recipe has a requirement, the seven separator presets; one API call (Generate, Entropy, Alphabet, SuccessProbability, Size, a separator call) followed by a second call, with draws summarised, and three calls with the real kernel on symbolic source bytes; MaxTrials 2",
 				"claim":   "sequential non-interference: on every explored path no Store / map update / delete / in-place append executed inside the call targets an object that existed before the call (receiver backing arrays, word list, closure environments, package-level variables). Read-only sharing implies data-race freedom for every interleaving (reasoned, not solved); interleavings are not explored symbolically",
-				"confirm": "a path that does write shared memory is a candidate; it is reported only when the native stress test (8 goroutines x 400 calls on the same values, go test -race, results validated) reports a data race or an invalid result; the thorough tier always runs the stress test",
+				"confirm": "a path that does write shared memory is a candidate; it is reported only when the native stress test (24 rounds on freshly built values, 8 goroutines released together x 60 calls each, go test -race, results validated) reports a data race or an invalid result; the thorough tier always runs the stress test",
 				"outside": "recipes outside the listed shared values; races inside crypto/rand, fmt or golang-set's own locking (assumed goroutine-safe as documented); writes made under a lock are cleared, not convicted, by the native run",
 			},
 			Assume:  commonAssume,
@@ -226,7 +232,7 @@ func propSpecs() map[string]*PropSpec {
 				{Name: "H18", Reach: []string{"called", "password", "error"}},
 			},
 			Bounds: map[string]string{
-				"H18":     "seven generation scenarios (character recipe with a requirement: accepted, retried and exhausted with MaxTrials 1..2; non-ASCII alphabet; refused recipes; wordlist recipe with 'random' capitalisation and a constructed separator whose requirement can fail; a word list with a duplicate; entropy and probability queries); every value derived from a random draw is tainted (terms over draw variables, strings chosen through a draw) and every argument of fmt.Print*/Fprint*, log.*, os.File.Write and println is checked on every path; the diagnostics that do occur must be the three known ones",
+				"H18":     "eleven generation scenarios (a 256-character random separator; 200 attempts with up to 200 consecutive rejections; character recipe with a requirement: accepted, retried and exhausted with MaxTrials 1..2; non-ASCII alphabet; refused recipes; wordlist recipe with 'random' capitalisation and a constructed separator whose requirement can fail; a word list with a duplicate; entropy and probability queries); every value derived from a random draw is tainted (terms over draw variables, strings chosen through a draw) and every argument of fmt.Print*/Fprint*, log.*, os.File.Write and println is checked on every path; the diagnostics that do occur must be the three known ones",
 				"outside": "implicit (control-flow) leaks: a message printed iff a secret has some property; sinks other than the listed ones",
 			},
 			Assume: commonAssume,
@@ -234,15 +240,17 @@ func propSpecs() map[string]*PropSpec {
 		{
 			ID: "C16", Sub: "spg", Level: "model_checking",
 			Harnesses: []HSpec{
-				{Name: "H16a", Reach: []string{"defaults"}},
-				{Name: "H16p", Reach: []string{"preset", "none"}},
+				{Name: "H16f", Quick: P{"unwind:randomUint32n": 2, "unwind_expected": 1, "maxdecisions": 60}, Thorough: P{"unwind:randomUint32n": 3, "unwind_expected": 1, "maxdecisions": 80}, Reach: []string{"fault-hit"}},
+				{Name: "H16a", Quick: P{"maxdecisions": 400}, Thorough: P{"maxdecisions": 400}, Reach: []string{"defaults"}},
+				{Name: "H16p", Quick: P{"maxdecisions": 400}, Thorough: P{"maxdecisions": 400}, Reach: []string{"preset", "none"}},
 				{Name: "H16l", Reach: []string{"lists"}},
-				{Name: "H01", Label: "kernel-contract", Int: true, Quick: P{"unwind:randomUint32n": 5, "unwind_expected": 1}, Thorough: P{"unwind:randomUint32n": 10, "unwind_expected": 1}, Reach: []string{"returned", "after-rejection"}},
+				{Name: "H01", Label: "kernel-contract", Int: true, Quick: P{"unwind:randomUint32n": 5, "unwind_expected": 1, "maxdecisions": 40}, Thorough: P{"unwind:randomUint32n": 10, "unwind_expected": 1, "maxdecisions": 45}, Reach: []string{"returned", "after-rejection"}},
 				{Name: "H01P", Label: "kernel-contract", Reach: []string{"returned"}},
 			},
 			Bounds: map[string]string{
 				"H16a":    "the five class flags and the named combinations through Alphabet() of single-class recipes, NewCharRecipe / NewWLRecipe defaults (Length 1..3), MaxTrials, MaxFailRate - compared with literals typed from the documentation",
 				"H16p":    "each of the seven exported presets, called after nothing or after two calls of any other preset (sequences matter for shared cached state), with symbolic draws: the output is the character of the documented set selected by the draw, two independent calls give equal separators iff their draws are equal (solver queries), entropy = log2(|set|^length)",
+				"H16f":    "each non-empty preset with a source failure at each of its reads delivering 0..3 bytes (real kernel on symbolic source bytes, at most one rejected word per draw)",
 				"H16l":    "every entry of AgileWords and AgileSyllables as built by the executed package initialiser against testdata/agwordlist.txt and testdata/agsyllables.txt (read by the driver on every run), lower-case, duplicate-free; NewWordList keeps every entry",
 				"outside": "nothing of the property's quantifier is left out; the list comparison and the constants are concrete execution of the initialisers through the same engine, only the preset statements involve the solver",
 			},
@@ -258,7 +266,7 @@ func propSpecs() map[string]*PropSpec {
 			},
 			Bounds: map[string]string{
 				"HO17c":   "opgen characters with --length 1, 8, absent (20) or 200 (entropy only); --allow/--require/--exclude each absent or one of the class lists (digits; uppercase,lowercase; a list with blanks after the commas; a list with an unknown word; three classes with blanks; ambiguous; a list with blanks around the commas); --entropy on/off; main() is executed from its SSA with os.Args set, package flag modelled by its documented contract; the password printed is compared with the password of the documented library recipe on the same (symbolic) random draws; in the engine MaxTrials is 2",
-				"HO17w":   "opgen words with --size 1, 3 or absent (4); --file with three small files (one with a duplicate word) and a 12 000-word file kept on one line of more than 64 KiB or --list absent/words/syllables/unknown; every separator class and an unknown one; every capitalisation scheme and an unknown one; --entropy on/off; generation from the 18 328-word shipped lists with symbolic draws is skipped in the engine (entropy only)",
+				"HO17w":   "opgen words with --size 1, 3 or absent (4); --file with small files (one with a duplicate word, two with capitalised twins, one whose words contain %) and a 12 000-word file kept on one line of more than 64 KiB or --list absent/words/syllables/unknown; every separator class and an unknown one; every capitalisation scheme and an unknown one; --entropy on/off; generation from the 18 328-word shipped lists with symbolic draws is skipped in the engine (entropy only)",
 				"HO17u":   "missing subcommand, unknown subcommand, unknown flag, misspelt flag, malformed integer, flag without its value",
 				"outside": "the text-level behaviour of package flag is a model written from its documentation (flag.go is not executed); the process boundary (exit status, stdout/stderr) is the engine's event log, confirmed on the built binary only for counterexamples; other flag spellings and values",
 			},
@@ -270,12 +278,14 @@ func propSpecs() map[string]*PropSpec {
 			Harnesses: []HSpec{
 				{Name: "H11a", Quick: P{"t": 3, "b": 3}, Thorough: P{"t": 3, "b": 3, "anytype": 1}, Reach: []string{"indexed", "roundtrip", "non-ascii"}},
 				{Name: "H11a", Label: "long-tokens", ThoroughOnly: true, Thorough: P{"t": 2, "b": 5, "anytype": 1}, Reach: []string{"roundtrip", "non-ascii"}},
+				{Name: "H11a", Label: "any-type-byte", Quick: P{"t": 3, "b": 1, "anytype": 1}, Thorough: P{"t": 4, "b": 1, "anytype": 1}, Reach: []string{"indexed", "roundtrip"}},
+				{Name: "H11a", Label: "arbitrary-bytes", Quick: P{"t": 2, "b": 2, "anytype": 1, "anyutf": 1}, Thorough: P{"t": 2, "b": 3, "anytype": 1, "anyutf": 1}, Reach: []string{"indexed", "roundtrip"}},
 				{Name: "H11a", Label: "many-tokens", Quick: P{"t": 5, "b": 1}, Thorough: P{"t": 5, "b": 2}, Reach: []string{"roundtrip"}},
 				{Name: "H11b", Reach: []string{"indexed", "roundtrip", "refused"}},
 				{Name: "H11c", Quick: P{"L": 2}, Thorough: P{"L": 3}, Reach: []string{"generated", "roundtrip"}},
 			},
 			Bounds: map[string]string{
-				"H11a":    "token sequences of 1..t tokens, each 1..b arbitrary bytes assumed valid UTF-8 (utf8.ValidString executed symbolically, so every mixture of 1- to 4-byte characters arises), type byte symbolic in {0,1} (quick) or any uint8 (thorough); quick t=3,b=3; thorough t=3,b=3 any type, t=2,b=5 any type, t=5,b=2",
+				"H11a":    "token sequences of 1..t tokens, each 1..b arbitrary bytes assumed valid UTF-8 (utf8.ValidString executed symbolically, so every mixture of 1- to 4-byte characters arises), type byte symbolic in {0,1} (quick) or any uint8 (thorough); quick t=3,b=3; thorough t=3,b=3 any type, t=2,b=5 any type, t=5,b=2; `any-type-byte`: 1..3 (4) one-byte tokens with any uint8 type; `arbitrary-bytes`: 1..2 tokens of 1..2 (3) arbitrary bytes without the UTF-8 assumption (an invalid byte is one character), any type",
 				"H11b":    "one token of 254, 255 and 256 characters (ASCII with symbolic bytes, and two-byte characters with a symbolic second byte), alone or followed by a separator and an atom",
 				"outside": "more than 5 tokens; symbolic tokens longer than 5 bytes other than the 254..256-character boundary tokens; H11c runs generated passwords (four word lists incl. non-ASCII, three schemes, five separators incl. a functional non-ASCII one; three character recipes) through the round trip with symbolic draws",
 			},
@@ -284,12 +294,14 @@ func propSpecs() map[string]*PropSpec {
 		{
 			ID: "C12", Sub: "spg", Level: "model_checking",
 			Harnesses: []HSpec{
-				{Name: "H12a", Quick: P{"p": 3, "q": 3}, Thorough: P{"p": 4, "q": 5}, Reach: []string{"returned", "accepted", "rejected"}},
-				{Name: "H12b", Quick: P{"p": 4, "q": 6}, Thorough: P{"p": 7, "q": 9}, Reach: []string{"returned", "accepted", "rejected"}},
+				{Name: "H12a", Quick: P{"p": 3, "q": 3}, Thorough: P{"p": 4, "q": 4}, Reach: []string{"returned", "accepted", "rejected"}},
+				{Name: "H12b", Quick: P{"p": 4, "q": 6}, Thorough: P{"p": 6, "q": 8}, Reach: []string{"returned", "accepted", "rejected"}},
+				{Name: "H12c", Quick: P{"q": 3}, Thorough: P{"q": 4}, Reach: []string{"returned", "accepted", "rejected"}},
 			},
 			Bounds: map[string]string{
-				"H12a":    "pw: every byte string of length 0..p (no UTF-8 assumption); index: every byte string of length 0..q; quick p=3,q=3; thorough p=4,q=5",
-				"H12b":    "pw: every ASCII byte string of length 0..p; index: every byte string of length 0..q; quick p=4,q=6; thorough p=7,q=9",
+				"H12a":    "pw: every byte string of length 0..p (no UTF-8 assumption); index: every byte string of length 0..q; quick p=3,q=3; thorough p=4,q=4",
+				"H12b":    "pw: every ASCII byte string of length 0..p; index: every byte string of length 0..q; quick p=4,q=6; thorough p=6,q=8",
+				"H12c":    "pw: 63, 64, 65, 255, 256 and 257 characters (all 'a', or with a two-byte character in front); index: kind 0..3 or unknown, then 0..q-1 bytes (q quick 3, thorough 4) each from {0,1,2,3,62,63,64,65,200,254,255}",
 				"outside": "strings and indices longer than the bounds; invalid UTF-8 together with an index longer than q(H12a) bytes; entropy is one fixed float32 (it is only copied)",
 			},
 			Assume: commonAssume,
